@@ -1,10 +1,16 @@
-import PermutaModel.Model.C18
+import PermutaModel.Model.C18Int
 open Proto
 
 namespace Driver.C18
 open Model.C18
 
 def cell1 (s : String) : Cell := (parseCells s).headD (0, 0)
+
+/-- a position with signed coordinates `x.y` (e.g. `-1.3`, `2.-4`) -/
+def icell1 (s : String) : ICell :=
+  match s.splitOn "." with
+  | [a, b] => (parseInt a, parseInt b)
+  | _ => (0, 0)
 
 def sortCells (l : List Cell) : List Cell :=
   l.mergeSort fun a b => a.1 < b.1 || (a.1 == b.1 && a.2 ≤ b.2)
@@ -43,13 +49,18 @@ def handle1 (op : String) (a : List String) : Option String :=
   | "addinc", [p, c, pos] => some (showExcept showMeshS (addIncrease (parseMesh p c) (cell1 pos)))
   | "adddec", [p, c, pos] => some (showExcept showMeshS (addDecrease (parseMesh p c) (cell1 pos)))
   | "necond", [p, c, pos] => some (showExcept showBool (neCond (parseMesh p c) (cell1 pos)))
-  | "nesimul", [p, c, p1, p2] => some (showExcept showBool (neSimul (parseMesh p c) (cell1 p1) (cell1 p2)))
+  | "nesimul", [p, c, p1, p2] => some (showExcept showBool (neSimulI (parseMesh p c) (icell1 p1) (icell1 p2)))
   | "canshade", [p, c, pos] => some (showExcept showSeq (canShade (parseMesh p c) (cell1 pos)))
-  | "cansimul", [p, c, p1, p2] => some (showExcept showSeq (canSimulShade (parseMesh p c) (cell1 p1) (cell1 p2)))
+  | "cansimul", [p, c, p1, p2] =>
+      some (showExcept showIntSeq (canSimulShadeI (parseMesh p c) (icell1 p1) (icell1 p2)))
   | "cs", [p, c, pos, _] =>
       some (showExcept (fun l => showBool !l.isEmpty) (canShade (parseMesh p c) (cell1 pos)))
   | "css", [p, c, p1, p2, _] =>
-      some (showExcept (fun l => showBool !l.isEmpty) (canSimulShade (parseMesh p c) (cell1 p1) (cell1 p2)))
+      some (showExcept (fun l => showBool !l.isEmpty) (canSimulShadeI (parseMesh p c) (icell1 p1) (icell1 p2)))
+  | "cssz", [p, c, p1, p2, _] =>
+      some (match canSimulShadeI (parseMesh p c) (icell1 p1) (icell1 p2) with
+        | .ok l => showBool !l.isEmpty
+        | .error _ => "F")
   | "adj", [p, c, pos] =>
       some (showExcept (fun l => showBool (adjOK (parseMesh p c) [cell1 pos] l)) (canShade (parseMesh p c) (cell1 pos)))
   | "adj2", [p, c, p1, p2] =>
